@@ -406,7 +406,7 @@ def finish(pid, tier, seed, acc, t0, w, broken=None):
     distinct = len([k for k in acc["classes"]])
     incon = sum(acc["inconclusive"].values())
     cov = dict(evaluations=acc["evaluations"], distinct_nontrivial=distinct, rule=acc["rule"],
-               samples=acc["samples"][:8], counters=acc["counters"], inconclusive=acc["inconclusive"],
+               samples=acc["samples"][:14], counters=acc["counters"], inconclusive=acc["inconclusive"],
                known_findings_hit={s: v["count"] for s, v, _ in known_hits},
                new_violation_signatures=[s for s, _ in new_viol],
                class_histogram_top=dict(sorted(acc["classes"].items(), key=lambda kv: -kv[1])[:12]),
